@@ -86,8 +86,66 @@ M = [
   'rewards_    (s, a)     += model.getExpectedReward       (s, a, s) * transitions_[a](s, s1);'),
  ('M12 checkTag no longer reports duplicates', 'src/Factored/Utils/Core.cpp',
   'if (tagV == previousV)    return std::make_pair(TagErrors::Duplicates, t);', ''),
+ # ---- round 3 (N…): indirect helpers and the factored dynamics; run with the repository's unit tests first (tools/dev/unittests_c06.py)
+ ('N1 dense isProbability tests |.|-sum only (seeded elsewhere): rows like (0.75, -0.25) pass', 'src/Utils/Probability.cpp',
+  'if (in.row(row).minCoeff() < 0.0 || checkDifferentSmall(in.row(row).sum(), 1.0))', 'if (checkDifferentSmall(in.row(row).cwiseAbs().sum(), 1.0))'),
+ ('N2 DDN::getTransitionProbability(PartialFactors) indexes the matrices by position instead of node id', 'src/Factored/Utils/BayesianNetwork.cpp',
+  'retval *= transitions[nodeId](graph.getId(nodeId, s, a), s1.second[j]);', 'retval *= transitions[j](graph.getId(j, s, a), s1.second[j]);'),
+ ('N3 DDNGraph::getIds(feature, j) searches with >= (block boundaries go to the previous parent set)', 'src/Factored/Utils/BayesianNetwork.cpp',
+  'while (startIds_[feature][actionId] > j)', 'while (actionId > 0 && startIds_[feature][actionId] >= j)'),
+ ('N4 CooperativeModel copy constructor binds the DDN to the SOURCE graph (dangling once the source dies)', 'src/Factored/MDP/CooperativeModel.cpp',
+  'transitions_({graph_, other.transitions_.transitions}), rewards_(other.rewards_),', 'transitions_({other.graph_, other.transitions_.transitions}), rewards_(other.rewards_),'),
+ ('N5 FactoredMatrix2D::getValue assigns instead of accumulating (only the last basis counts)', 'src/Factored/Utils/FactoredMatrix.cpp',
+  '''           const auto aid = toIndexPartial(e.actionTag, actions, action);
+
+           retval += e.values(fid, aid);''', '''           const auto aid = toIndexPartial(e.actionTag, actions, action);
+
+           retval = e.values(fid, aid);'''),
+ ('N6 CooperativeModel constructor validates only the first getPartialSize(i) rows of each matrix', 'src/Factored/MDP/CooperativeModel.cpp',
+  'for (size_t j = 0; j < graph_.getSize(i); ++j)\n                if (!isProbability', 'for (size_t j = 0; j < graph_.getPartialSize(i); ++j)\n                if (!isProbability'),
+ ('N7 equalToleranceSmall widened to 1e-5', 'include/AIToolbox/Utils/Core.hpp',
+  'constexpr auto equalToleranceSmall = 0.000001;', 'constexpr auto equalToleranceSmall = 0.00001;'),
+ ('N8 toIndexPartial(ids, space, Factors) multiplies by the size of the NEXT key (wrong radix for non-uniform spaces)', 'src/Factored/Utils/Core.cpp',
+  '''        for (auto id : ids) {
+            result += multiplier * f[id];
+            multiplier *= space[id];
+        }
+        return result;
+    }
+
+    size_t toIndexPartial(const PartialKeys & ids, const Factors & space, const PartialFactors & pf) {''', '''        for (size_t k = 0; k < ids.size(); ++k) {
+            result += multiplier * f[ids[k]];
+            multiplier *= space[ids[k + 1 < ids.size() ? k + 1 : k]];
+        }
+        return result;
+    }
+
+    size_t toIndexPartial(const PartialKeys & ids, const Factors & space, const PartialFactors & pf) {'''),
+ ('N9 DDNGraph::push accumulates startIds_ with the size of the FIRST feature tag only', 'src/Factored/Utils/BayesianNetwork.cpp',
+  'newStartId += factorSpacePartial(newParents.features[i], S);', 'newStartId += factorSpacePartial(newParents.features[0], S);'),
+ ('N10 MDP::SparseModel::getTransitionProbability reads the transposed entry (the generic view every converting constructor uses)', 'src/MDP/SparseModel.cpp',
+  'return transitions_[a].coeff(s, s1);', 'return transitions_[a].coeff(s1, s);'),
+ ('N11 MDP::Model::getExpectedReward(s, a, s1) indexes the reward table by the successor', 'src/MDP/Model.cpp',
+  '''    double Model::getExpectedReward(const size_t s, const size_t a, const size_t) const {
+        return rewards_(s, a);''', '''    double Model::getExpectedReward(const size_t s, const size_t a, const size_t s1) const {
+        return rewards_(s1, a);'''),
+ ('N12 operator>>(istream&, Model&) sets the discount on the target instead of the temporary (a later failure leaves it changed)', 'src/MDP/IO.cpp',
+  '''            AI_LOGGER(AI_SEVERITY_ERROR, "Could not read Model discount.");
+            return is;
+        } else
+            in.setDiscount(discount);''', '''            AI_LOGGER(AI_SEVERITY_ERROR, "Could not read Model discount.");
+            return is;
+        } else
+            m.setDiscount(discount);'''),
+ ('N13 AMDP::discretizeDense accumulates the reward without the observation probability', 'include/AIToolbox/POMDP/Algorithms/AMDP.hpp',
+  '''                        T[a](s, s1) += p;
+                        R(s, a)     += p * r;''', '''                        T[a](s, s1) += p;
+                        R(s, a)     += r;'''),
 ]
-sel = sys.argv[1:]
+UT = '--ut' in sys.argv
+LENIENT = '--lenient' in sys.argv      # skip the textual tie (AITB.Gen.C06Sites) to see what the behavioural clauses catch alone
+if LENIENT: env['AITB_C06_LENIENT_SITES'] = '1'
+sel = [a for a in sys.argv[1:] if not a.startswith('--')]
 for name, f, a, b in M:
     if sel and name.split()[0] not in sel:
         continue
@@ -95,14 +153,19 @@ for name, f, a, b in M:
     if s.count(a) != 1:
         print(name, 'PATTERN COUNT', s.count(a)); continue
     open(p, 'w').write(s.replace(a, b))
+    if UT:
+        ut = subprocess.run(['python3', 'tools/dev/unittests_c06.py'], cwd=WT, env=env, capture_output=True, text=True)
+        bad = [l.split()[0] for l in ut.stdout.splitlines() if ' rc=' in l and ' rc=0' not in l]
+        print('   unit tests:', 'PASS' if ut.returncode == 0 else 'FAIL ' + ' '.join(bad)); sys.stdout.flush()
     r = subprocess.run(['python3', 'tools/check.py', 'C06', '--tier', 'quick'], cwd=WT, env=env, capture_output=True, text=True)
-    lines = [l for l in r.stdout.splitlines() if l.startswith('VIOLATION') or l.startswith('[C06]')]
+    lines = [l for l in (r.stdout + r.stderr).splitlines() if l.startswith('VIOLATION') or l.startswith('[C06]') or 'BROKEN' in l or 'ExtractError' in l]
     print('==', name, 'exit', r.returncode)
     for l in lines[:5]:
         print('   ', l[:200])
     for l in lines:
         if l.startswith('VIOLATION'):
+            if 'replay=' not in l: break
             rp = l.split('replay=')[1].split()[0]
             d = json.load(open(rp)); print('    first:', (d.get('verdict') or d.get('detail') or str(d.get('broken'))[:300])[:260]); break
-    subprocess.run(['git', '-C', REPO, 'checkout', '--', '.'])
+    open(p, 'w').write(s)      # restore the original text (works in a plain copy of the library too)
     sys.stdout.flush()
